@@ -3,8 +3,8 @@
     symbolic link is fingerprinted by the BLAKE3 of its target string, type Symlink; anything else by the BLAKE3 of
     exactly its bytes, type File - for a regular file, [Hh] of its content: the `scan` of Model/Bisync.v and the
     `cur_of` of Model/Hub.v. *)
-From Coq Require Import ZArith List Bool.
-From Copia Require Import Gen.Constants Model.LoopLib Model.Reconcile Gen.FingerprintGen.
+From Coq Require Import ZArith List Bool Sorted.
+From Copia Require Import Gen.Constants Model.LoopLib Model.Path Model.Reconcile Proofs.PathProofs Proofs.TieLocalScan Gen.FingerprintGen.
 Import ListNotations.
 Open Scope Z_scope.
 
@@ -31,6 +31,72 @@ Proof. reflexivity. Qed.
 Lemma current_hash_of_regular (file : option (list Z)) :
   option_map (@blake3 D) (g_fingerprint_path D Hh (match file with Some _ => Some false | None => None end) None file) = option_map Hh file.
 Proof. destruct file; reflexivity. Qed.
+
+(** ** the scan of a tree (meta.rs `discover_local_fingerprints`): every listed path that HAS a fingerprint enters the map
+    with exactly that fingerprint; a path whose fingerprint cannot be read is skipped, never guessed; nothing else enters *)
+Fixpoint fps_of (fp_of : list Z -> option (fingerprint D)) (ks : list (list Z)) : list (list Z * fingerprint D) :=
+  match ks with
+  | [] => []
+  | k :: r => match fp_of k with Some f => (k, f) :: fps_of fp_of r | None => fps_of fp_of r end
+  end.
+
+Lemma fps_of_app fp_of k1 k2 : fps_of fp_of (k1 ++ k2) = fps_of fp_of k1 ++ fps_of fp_of k2.
+Proof. induction k1 as [|k r IH]; cbn [fps_of app]; [reflexivity|]. destruct (fp_of k); rewrite IH; reflexivity. Qed.
+
+Lemma fps_of_keys_below fp_of (ks : list (list Z)) (k : list Z) :
+  Forall (fun a => klt path_cmp a k) ks -> Forall (fun a => klt path_cmp (fst a) k) (fps_of fp_of ks).
+Proof.
+  induction ks as [|a r IH]; intros HF; cbn [fps_of]; [constructor|]. inversion HF as [|x l Ha Hr]; subst.
+  destruct (fp_of a); [constructor; [exact Ha|exact (IH Hr)]|exact (IH Hr)].
+Qed.
+
+Lemma keys_sorted_snoc (k1 : list (list Z)) (k : list Z) (k2 : list (list Z)) :
+  StronglySorted (klt path_cmp) (k1 ++ k :: k2) -> Forall (fun a => klt path_cmp a k) k1.
+Proof.
+  induction k1 as [|a r IH]; intros Hs; [constructor|]. cbn [app] in Hs. inversion Hs as [|x l Hs' HF]; subst. constructor.
+  - rewrite Forall_app in HF. destruct HF as [_ HF2]. inversion HF2; subst. assumption.
+  - exact (IH Hs').
+Qed.
+
+Theorem tie_discover_local_fingerprints (fp_of : list Z -> option (fingerprint D)) (ks : list (list Z)) :
+  StronglySorted (klt path_cmp) ks ->
+  g_discover_local_fingerprints D ks fp_of = fps_of fp_of ks.
+Proof.
+  intros Hs. unfold g_discover_local_fingerprints. cbv zeta.
+  assert (Hgen : forall k1 k2, ks = k1 ++ k2 ->
+            match for_loop k2 (fun rel => fun out =>
+                    match fp_of rel with
+                    | Some fp => let out := al_insert path_cmp rel fp out in (inl out : list (list Z * fingerprint D) + list (list Z * fingerprint D))
+                    | _ => inl out
+                    end) (fps_of fp_of k1) with
+            | inl out => out | inr r => r end = fps_of fp_of ks).
+  { intros k1 k2; revert k1; induction k2 as [|k k2 IH]; intros k1 Ek.
+    - cbn. rewrite Ek, app_nil_r. reflexivity.
+    - cbn [for_loop]. specialize (IH (k1 ++ [k])). rewrite <- app_assoc in IH. cbn [app] in IH. specialize (IH Ek).
+      rewrite fps_of_app in IH. cbn [fps_of] in IH.
+      destruct (fp_of k) as [f|] eqn:Ef.
+      + cbv zeta. rewrite al_insert_last; [exact IH|]. apply fps_of_keys_below. rewrite Ek in Hs. exact (keys_sorted_snoc k1 k k2 Hs).
+      + rewrite app_nil_r in IH. exact IH. }
+  exact (Hgen [] ks eq_refl).
+Qed.
+
+(** on a tree of readable regular files [t] (sorted path -> content), the scan is the digest of every file's content:
+    the `scan` of Model/Bisync.v, `Hh <$> t` *)
+Definition fp_of_tree (t : list (list Z * list Z)) (p : list Z) : option (fingerprint D) :=
+  g_fingerprint_path D Hh (match al_get path_cmp p t with Some _ => Some false | None => None end) None (al_get path_cmp p t).
+
+Theorem discover_local_fingerprints_is_scan (t : list (list Z * list Z)) :
+  al_sorted path_cmp t ->
+  g_discover_local_fingerprints D (map fst t) (fp_of_tree t) = map (fun pc => (fst pc, {| blake3 := Hh (snd pc); ftype := File |})) t.
+Proof.
+  intros Hs. rewrite tie_discover_local_fingerprints by (apply al_sorted_keys; exact Hs).
+  assert (Hgen : forall t2, (forall p c, In (p, c) t2 -> In (p, c) t) ->
+            fps_of (fp_of_tree t) (map fst t2) = map (fun pc => (fst pc, {| blake3 := Hh (snd pc); ftype := File |})) t2).
+  { induction t2 as [|[p c] r IH]; intros Hin; cbn [map fst snd fps_of]; [reflexivity|].
+    assert (Hg : al_get path_cmp p t = Some c) by (apply (al_get_in path_cmp path_cmp_lawful); [exact Hs|apply Hin; left; reflexivity]).
+    unfold fp_of_tree at 1. rewrite Hg. rewrite tie_fingerprint_regular. f_equal. apply IH. intros q d Hq. apply Hin. right. exact Hq. }
+  apply Hgen. intros p c H; exact H.
+Qed.
 End Tie.
 
 Definition fingerprint_is_translation : Prop :=
@@ -38,6 +104,9 @@ Definition fingerprint_is_translation : Prop :=
     (forall c, g_fingerprint_path D Hh (Some false) None (Some c) = Some {| blake3 := Hh c; ftype := File |}) /\
     (forall target c, g_fingerprint_path D Hh (Some true) (Some target) c = Some {| blake3 := Hh target; ftype := Symlink |}) /\
     (forall l c, g_fingerprint_path D Hh None l c = None) /\
-    (forall file, option_map (@blake3 D) (g_fingerprint_path D Hh (match file with Some _ => Some false | None => None end) None file) = option_map Hh file).
+    (forall file, option_map (@blake3 D) (g_fingerprint_path D Hh (match file with Some _ => Some false | None => None end) None file) = option_map Hh file) /\
+    (forall fp_of ks, StronglySorted (klt path_cmp) ks -> g_discover_local_fingerprints D ks fp_of = fps_of D fp_of ks) /\
+    (forall t, al_sorted path_cmp t ->
+       g_discover_local_fingerprints D (map fst t) (fp_of_tree D Hh t) = map (fun pc => (fst pc, {| blake3 := Hh (snd pc); ftype := File |})) t).
 Lemma fingerprint_is_translation_holds : fingerprint_is_translation.
-Proof. intros D Hh. split; [apply tie_fingerprint_regular|]. split; [apply tie_fingerprint_symlink|]. split; [apply tie_fingerprint_absent|apply current_hash_of_regular]. Qed.
+Proof. intros D Hh. split; [apply tie_fingerprint_regular|]. split; [apply tie_fingerprint_symlink|]. split; [apply tie_fingerprint_absent|]. split; [apply current_hash_of_regular|]. split; [apply tie_discover_local_fingerprints|apply discover_local_fingerprints_is_scan]. Qed.
